@@ -26,7 +26,7 @@ Section Rk4.
 
   (* cont = [y_old ; slope used at the left end ; slope at the right end ; y_new] *)
   Definition dense (y : vec) (a : attempt) : vec :=
-    y ++ nth 3 (at_ks a) [] ++ at_knew a ++ at_ynew a.
+    y ++ nth 0 (at_ks a) [] ++ at_knew a ++ at_ynew a.
 
   Definition block (cont : vec) (n j : nat) : vec := firstn n (skipn (j * n) cont).
 
@@ -65,9 +65,10 @@ Section Rk4.
         inr (mkR NeedLargerNMax h (s_stats s) x y (s_log s) (s_cb s))
       else
         let last := ((x + L L1_01 * h - xend) * signum O h) >? zero O in
+        let h := if last then xend - x else h in
         let a := kern x y (s_k1 s) h in
         let xnew := x + h in
-        let stats := add_step (add_fev (s_stats s) 4) in
+        let stats := add_acc (add_step (add_fev (s_stats s) 4)) in
         let log := rev_append (at_calls a) (s_log s) in
         let cont := dense y a in
         let '(cbs, fl, ycb) := cb (s_cb s) x xnew (at_ynew a)
@@ -100,14 +101,15 @@ Section Rk4.
     else
       let k1 := f x0 y0 in
       let log := [(x0, y0)] in
+      let st1 := add_fev stats0 1 in
       let '(cbs, fl, y) := cb cb0 x0 x0 y0 None in
       match fl with
-      | Interrupt => Some (mkR UserInterrupt h stats0 x0 y log cbs)
+      | Interrupt => Some (mkR UserInterrupt h st1 x0 y log cbs)
       | _ =>
           let '(k1, stats, log) :=
             match fl with
-            | ModifiedSolution => (f x0 y, add_fev stats0 1, (x0, y) :: log)
-            | _ => (k1, stats0, log)
+            | ModifiedSolution => (f x0 y, add_fev st1 1, (x0, y) :: log)
+            | _ => (k1, st1, log)
             end in
           loop P f xend h cb (kernel f) fuel (mkS x0 y k1 stats log cbs)
       end.
